@@ -265,7 +265,7 @@ pub fn main() {
         let variants = case["variants"].as_array().unwrap();
         for it in 0..per_case {
             rot += 1;
-            let var = &variants[(rot + it) % variants.len()];
+            let var = &variants[rng.random_range(0..variants.len())];
             let total = var["total"].as_bool().unwrap();
             let desc = var["desc"].as_bool().unwrap();
             let cfg = RunCfg {
@@ -280,7 +280,7 @@ pub fn main() {
             let w = format!("PARTITION BY p ORDER BY {}", order_sql(total, desc));
             let forcer = if cfg.force_unbounded { format!(", count(*) OVER ({w} ROWS BETWEEN UNBOUNDED PRECEDING AND UNBOUNDED FOLLOWING) AS forcer") } else { String::new() };
             // which shape
-            let shape = ["frame", "frame", "frame", "pos", "topn", "limit"][(rot / 3 + it) % 6];
+            let shape = ["frame", "frame", "frame", "frame", "pos", "pos", "topn", "limit"][(rot + it + rng.random_range(0..8)) % 8];
             let frames = var["frames"].as_array().unwrap();
             let (sql, calls, exp_list, want_ids, exact_rows, units): (String, Vec<(&str, &str, bool)>, &Value, Option<Vec<i64>>, Option<usize>, String) = match shape {
                 "frame" if !frames.is_empty() => {
@@ -313,7 +313,17 @@ pub fn main() {
                     (format!("SELECT id, {cols} FROM t LIMIT {k}"), calls, &var["tot"], None, Some(k.min(tbl.len())), "limit".into())
                 }
                 _ => {
-                    let calls = pos_calls(total);
+                    // a random non-empty subset: rank-only plans stay streaming, percent_rank/cume_dist/ntile need the partition
+                    let mut calls = pos_calls(total);
+                    let keep: Vec<bool> = calls.iter().map(|_| rng.random_bool(0.5)).collect();
+                    let mut k = 0;
+                    calls.retain(|_| {
+                        k += 1;
+                        keep[k - 1]
+                    });
+                    if calls.is_empty() {
+                        calls = pos_calls(total)[..1].to_vec();
+                    }
                     let cols = calls.iter().map(|(k, s, _)| format!("{} AS {k}", s.replace("{W}", &w))).collect::<Vec<_>>().join(", ");
                     // pos and tot records are merged per id below
                     (format!("SELECT id, {cols}{forcer} FROM t"), calls, &var["pos"], None, Some(tbl.len()), "pos".into())
